@@ -1,14 +1,16 @@
 """C28 — unknown chunk sizes are resolved exactly or refused."""
 from __future__ import annotations
 
+import itertools
 import math
+import random
 import re
 import warnings
 
 import numpy as np
 
 import progs
-from common import Check
+from common import Check, clist, copt, coq_eval_cases, coq_eval_expr, ctuple, cz
 
 
 def err_sig(e):
@@ -64,14 +66,503 @@ def follow(rng, da, y, w):
     return op, lambda: y[1], lambda: w[1]
 
 
+# --------------------------------------------------------------------------
+# model correspondence: the guards / resolvers for unknown chunk sizes vs theories/UnknownChunks.v
+HEADER = "From DA Require Import PyBase Slicing Rechunk Unify UnknownChunks.\nOpen Scope Z_scope.\n"
+NAN = np.nan          # THE singleton the library writes (never float('nan')): set/tuple equality is identity based
+
+# one Coq case type for all sub-families (a single batch of coqc runs)
+CASE_DEFS = """
+Inductive ucase :=
+| CValidate (o n : ochunksN) (g : guard unit)
+| CO2N (o n : ochunksN) (cw : list (list (list opiece)))
+| CPlan (o n : ochunksN) (steps : list ochunksN)
+| CBlock (ds : list ochunks) (cm co : guard ochunks)
+| CSlice (cs : ochunksN) (ix : list ploc) (g : guard unit)
+| COverride (cs got : ochunksN) (layer : list (list Z * list Z))
+| CMatch (a b : ochunksN) (r : bool)
+| CCcs (nb : list Z) (t : list (list Z * list Z)) (got : list (list Z)).
+Definition peq (a b : opiece) := let '(x, y, z) := a in let '(u, v, w) := b in (x =? u) && (y =? v) && oZ_eqb z w.
+Definition lookup (t : list (list Z * list Z)) (loc : list Z) : list Z :=
+  match find (fun p => zlist_eqb (fst p) loc) t with Some p => snd p | None => [] end.
+Definition chk (c : ucase) : bool :=
+  match c with
+  | CValidate o n g => guard_eqb (fun _ _ => true) (validate_rechunk o n) g
+  | CO2N o n cw => match old_to_new_u o n with Some r => list_eqb (list_eqb (list_eqb peq)) r cw | None => false end
+  | CPlan o n st => match plan_rechunk_early_exit o n with Some r => list_eqb chunks_match r st | None => false end
+  | CBlock ds cm co => guard_eqb ochunks_eqb (common_blockdim_u ds) cm &&
+                       existsb (fun p => guard_eqb ochunks_eqb (coarse_blockdim_u p ds) co) (seq 0 4)
+  | CSlice cs ix g => guard_eqb (fun _ _ => true) (slice_guard cs ix) g
+  | COverride cs got layer => chunks_match (chunks_override_chunks cs) got &&
+      list_eqb (fun a b => zlist_eqb (fst a) (fst b) && zlist_eqb (snd a) (snd b)) (chunks_override_layer cs) layer
+  | CMatch a b r => Bool.eqb (chunks_match a b) r
+  | CCcs nb t got => zlist2_eqb (compute_chunk_sizes_model (lookup t) nb) got
+  end.
+"""
+
+
+def isnan(c):
+    return isinstance(c, float) and math.isnan(c)
+
+
+def cnan(c):
+    return "None" if isnan(c) else f"(Some {cz(c)})"
+
+
+def cdim(d):
+    return clist(d, cnan)
+
+
+def cchunks(cs):
+    return clist(cs, cdim)
+
+
+def canon_dim(d):
+    """tuple of int-or-None (None = nan)"""
+    return tuple(None if isnan(c) else int(c) for c in d)
+
+
+def outcome(fn, *args):
+    """('ok', value) or ('err', exception class name)"""
+    try:
+        with warnings.catch_warnings():
+            warnings.simplefilter("ignore")
+            return ("ok", fn(*args))
+    except (ValueError, AssertionError, StopIteration) as e:
+        return ("err", type(e).__name__)
+    except Exception as e:  # noqa: BLE001
+        return ("err", "Other:" + type(e).__name__)
+
+
+def cguard(out, f):
+    if out[0] == "ok":
+        return f"(Proceed {f(out[1])})"
+    if out[1] in ("ValueError", "AssertionError", "StopIteration"):
+        return f"(Refuse {out[1]})"
+    return None
+
+
+def known_sound(adv, tr):
+    return len(adv) == len(tr) and all(isnan(a) or a == t for a, t in zip(adv, tr))
+
+
+def mask_layout(rng, tr, p):
+    return tuple(NAN if rng.random() < p else c for c in tr)
+
+
+def small_layouts(alphabet, maxlen):
+    out = []
+    for k in range(maxlen + 1):
+        out += list(itertools.product(alphabet, repeat=k))
+    return out
+
+
+def fam_validate_rechunk(chk, rng, scale, pend):
+    from dask_array._rechunk import _validate_rechunk
+    from c13 import rand_chunks
+    inputs = []
+    lays = small_layouts([NAN, 1, 2], 3 if scale > 1 else 2) + [(NAN, 1, 2), (NAN, 2, 1), (1, NAN, 2), (1, 1, 1), (NAN, NAN, NAN), (2, 1, NAN)]
+    for a in lays:
+        for b in lays:
+            inputs.append(((a,), (b,)))
+    for _ in range(600 * scale):
+        rank = rng.choice([0, 1, 2, 2, 3])
+        old, new = [], []
+        for _ax in range(rank):
+            n = rng.choice([1, 2, 3, 5, 8, 12])
+            tr = rand_chunks(rng, n, allow_zero=True)
+            o = mask_layout(rng, tr, rng.choice([0, 0, 0.3, 0.7, 1]))
+            r = rng.random()
+            if r < 0.45:
+                nw = o
+            elif r < 0.6:
+                nw = mask_layout(rng, tr, rng.choice([0, 0.3, 1]))           # nans elsewhere
+            elif r < 0.8:
+                nw = rand_chunks(rng, n, allow_zero=True)                     # known, same total
+            elif r < 0.9:
+                nw = rand_chunks(rng, n + rng.choice([0, 1]), allow_zero=True)
+            else:
+                nw = o + (rng.choice([0, NAN]),)                              # same prefix, one more block
+            old.append(o)
+            new.append(nw)
+        if rng.random() < 0.08:
+            new = new[:-1] if new and rng.random() < 0.5 else new + [(1,)]
+        inputs.append((tuple(old), tuple(new)))
+    for old, new in inputs:
+        out = outcome(_validate_rechunk, old, new)
+        g = cguard(out, lambda _v: "tt")
+        impl = out[1] if out[0] == "err" else "accepted"
+        chk.count("validate_rechunk:" + impl)
+        unknown = any(isnan(c) for d in old + new for c in d)
+        data = {"fn": "_validate_rechunk", "old": repr(old), "new": repr(new), "impl": impl}
+        chk.case(("vr", tuple(map(canon_dim, old)), tuple(map(canon_dim, new))), nontrivial=unknown and old != new, sample=data)
+        if g is None:
+            chk.tie_break("correspondence:_validate_rechunk raised an unmodelled exception", data)
+            continue
+        if out[0] == "ok":
+            # independent oracle: an accepted rechunk never touches an axis with unknown sizes, and keeps known lengths
+            for o, nw in zip(old, new):
+                if any(map(isnan, o)) or any(map(isnan, nw)):
+                    bad = canon_dim(o) != canon_dim(nw)
+                else:
+                    bad = sum(o) != sum(nw)
+                if bad:
+                    chk.violation("_validate_rechunk accepted a rechunk that changes an axis with unknown sizes (or the axis length)", data,
+                                  signature={"class": "unknown-chunks", "fn": "_validate_rechunk", "problem": "accepted a changed unknown axis"})
+        pend.append((f"(CValidate {cchunks(old)} {cchunks(new)} {g})", "_validate_rechunk", data, f"validate_rechunk {cchunks(old)} {cchunks(new)}"))
+
+
+def canon_cw(cw):
+    return [[[(int(j), int(s.start), None if s.stop is None else int(s.stop)) for j, s in pieces] for pieces in axis] for axis in cw]
+
+
+def ccw(cw):
+    return clist(cw, lambda axis: clist(axis, lambda pieces: clist(pieces, lambda p: ctuple(cz(p[0]), cz(p[1]), copt(p[2])))))
+
+
+def fam_old_to_new(chk, rng, scale, pend):
+    from dask_array._rechunk import old_to_new
+    from c13 import rand_chunks
+    inputs = []
+    lays = small_layouts([NAN, 0, 2], 3)
+    for a in lays:
+        if any(map(isnan, a)):
+            inputs.append(((a,), (a,)))
+            inputs.append(((a, (1, 2)), ((5,), (2, 1))))
+    for _ in range(400 * scale):
+        rank = rng.choice([1, 2, 2, 3])
+        old, new = [], []
+        for _ax in range(rank):
+            n = rng.choice([1, 2, 3, 5, 8, 12])
+            tr = rand_chunks(rng, n, allow_zero=True)
+            if rng.random() < 0.5:
+                o = mask_layout(rng, tr, rng.choice([0.2, 0.6, 1]))
+                nw = o if rng.random() < 0.7 else rand_chunks(rng, n)        # the new layout of an unknown axis is ignored
+            else:
+                o, nw = tr, rand_chunks(rng, n, allow_zero=True)
+            old.append(o)
+            new.append(nw)
+        inputs.append((tuple(old), tuple(new)))
+    for old, new in inputs:
+        cw = canon_cw(old_to_new(old, new))
+        unk = [any(map(isnan, o)) for o in old]
+        data = {"fn": "old_to_new", "old": repr(old), "new": repr(new), "impl": cw}
+        chk.count(f"old_to_new:{sum(unk)}unknown-of-{len(old)}")
+        chk.case(("o2n", tuple(map(canon_dim, old)), tuple(map(canon_dim, new))), nontrivial=any(unk), sample=data)
+        for ax, u in enumerate(unk):
+            if u and cw[ax] != [[(j, 0, canon_dim(old[ax])[j])] for j in range(len(old[ax]))]:
+                chk.violation("old_to_new is not the identity crosswalk on an axis with unknown sizes", data,
+                              signature={"class": "unknown-chunks", "fn": "old_to_new", "problem": "unknown axis is not mapped block to block"})
+        pend.append((f"(CO2N {cchunks(old)} {cchunks(new)} {ccw(cw)})", "old_to_new (unknown axes)", data, f"old_to_new_u {cchunks(old)} {cchunks(new)}"))
+
+
+def fam_plan_early_exit(chk, rng, scale, pend):
+    from dask_array._rechunk import plan_rechunk
+    from c13 import rand_chunks
+    inputs = []
+    for _ in range(200 * scale):
+        rank = rng.choice([1, 2, 2, 3])
+        old, new = [], []
+        for _ax in range(rank):
+            n = rng.choice([1, 2, 3, 5, 8, 12, 40])
+            old.append(rand_chunks(rng, n, allow_zero=True))
+            new.append(rand_chunks(rng, n))
+        ax = rng.randrange(rank)
+        if rng.random() < 0.7:
+            old[ax] = mask_layout(rng, old[ax], rng.choice([0.3, 1]))
+            if not any(map(isnan, old[ax])):
+                old[ax] = (NAN,) + old[ax][1:]
+            if rng.random() < 0.7:
+                new[ax] = old[ax]
+        else:
+            new[ax] = ()
+        inputs.append((tuple(old), tuple(new)))
+    for old, new in inputs:
+        out = outcome(plan_rechunk, old, new, rng.choice([1, 8]))
+        data = {"fn": "plan_rechunk", "old": repr(old), "new": repr(new), "impl": repr(out[1])}
+        chk.count("plan_rechunk:early-exit:" + ("nan-in-old" if any(isnan(c) for d in old for c in d) else "empty-new-axis"))
+        chk.case(("plan", tuple(map(canon_dim, old)), tuple(map(canon_dim, new))), nontrivial=True, sample=data)
+        if out[0] != "ok":
+            chk.tie_break("correspondence:plan_rechunk raised on an early-exit input", data)
+            continue
+        steps = [tuple(tuple(d) for d in st) for st in out[1]]
+        if len(steps) != 1 or tuple(map(canon_dim, steps[0])) != tuple(map(canon_dim, new)):
+            chk.violation("plan_rechunk with unknown old chunks / an empty new axis is not the single requested step", data,
+                          signature={"class": "unknown-chunks", "fn": "plan_rechunk", "problem": "early exit is not [new_chunks]"})
+        pend.append((f"(CPlan {cchunks(old)} {cchunks(new)} {clist(steps, cchunks)})", "plan_rechunk early exit", data,
+                     f"plan_rechunk_early_exit {cchunks(old)} {cchunks(new)}"))
+
+
+def fam_blockdims_unknown(chk, rng, scale, pend):
+    from dask_array._core_utils import common_blockdim
+    from dask_array._expr import coarse_blockdim
+    from c13 import rand_chunks
+    from c17 import related_layouts
+    inputs = []          # (list of layouts, common true layout or None)
+    lays = small_layouts([NAN, 1, 2], 2)
+    trip = lays if scale > 1 else [(), (NAN,), (2,), (NAN, NAN), (1, NAN), (2, 1), (NAN, 2)]
+    for a in lays:
+        inputs.append(([a], None))
+        for b in lays:
+            inputs.append(([a, b], None))
+            for c in trip:
+                inputs.append(([a, b, c], None))
+    for _ in range(500 * scale):
+        n = rng.choice([1, 2, 3, 5, 8, 12, 24])
+        r = rng.random()
+        if r < 0.4:      # the hypothesis of the soundness theorem: every layout advertises the SAME true layout
+            tr = rand_chunks(rng, n, allow_zero=rng.random() < 0.3)
+            ds = [mask_layout(rng, tr, rng.choice([0, 0.3, 0.7, 1])) for _ in range(rng.choice([1, 2, 3, 4]))]
+            inputs.append((ds, tr))
+        elif r < 0.7:    # related known layouts, some blocks masked
+            ls = related_layouts(rng, n)
+            ds = [mask_layout(rng, d, rng.choice([0, 0, 0.4, 1])) for d in ls]
+            inputs.append((ds, None))
+        else:            # fully known (agreement with the known-sizes models), duplicates and 1-block layouts included
+            ls = related_layouts(rng, n)
+            if rng.random() < 0.3:
+                ls.append(rng.choice(ls))
+            if rng.random() < 0.3:
+                ls.append((n + rng.choice([0, 1]),))
+            rng.shuffle(ls)
+            inputs.append((ls, None))
+    for ds, tr in inputs:
+        outs = {}
+        for nm, fn in (("common", common_blockdim), ("coarse", coarse_blockdim)):
+            o = outcome(fn, list(ds))
+            outs[nm] = ("ok", tuple(o[1])) if o[0] == "ok" else o
+        unknown = sum(1 for d in ds if any(map(isnan, d)))
+        data = {"fn": "common_blockdim/coarse_blockdim", "blockdims": repr(ds), "common": repr(outs["common"][1]), "coarse": repr(outs["coarse"][1])}
+        chk.count(f"blockdim:{min(len(ds), 4)}{'+' if len(ds) > 4 else ''}layouts:{min(unknown, 2)}{'+' if unknown > 2 else ''}unknown"
+                  + (":common-true-layout" if tr is not None else ""))
+        chk.case(("bd", tuple(map(canon_dim, ds))), nontrivial=unknown > 0 and len(ds) > 1, sample=data)
+        gs = [cguard(outs[nm], cdim) for nm in ("common", "coarse")]
+        if None in gs:
+            chk.tie_break("correspondence:common_blockdim/coarse_blockdim raised an unmodelled exception", data)
+            continue
+        if tr is not None:
+            for nm in ("common", "coarse"):
+                if outs[nm][0] == "ok" and not known_sound(outs[nm][1], tr):
+                    chk.violation(f"{nm}_blockdim over layouts that all advertise the same true layout returned a layout that contradicts it",
+                                  {**data, "true": tr},
+                                  signature={"class": "unknown-chunks", "fn": nm + "_blockdim", "problem": "result contradicts the true layout"})
+        pend.append((f"(CBlock {clist(ds, cdim)} {gs[0]} {gs[1]})", "common_blockdim/coarse_blockdim (unknown sizes)", data,
+                     f"(common_blockdim_u {clist(ds, cdim)}, coarse_blockdim_u 0 {clist(ds, cdim)})"))
+
+
+def cploc(ind):
+    if isinstance(ind, slice):
+        return f"(LSlice (mkslice {copt(ind.start)} {copt(ind.stop)} {copt(ind.step)}))"
+    return f"(LInt {cz(ind)})"
+
+
+def fam_slice_guard_override(chk, rng, scale, da, pend):
+    """slice_slices_and_integers guard, ChunksOverride.chunks/_layer and _chunks_match on real expression nodes"""
+    from dask_array._expr import ChunksOverride, _chunks_match
+    from dask_array.slicing._basic import slice_slices_and_integers
+    elems = [slice(None), slice(None), slice(None, None, None), slice(0, None), slice(1, 3), slice(None, None, 1), 0, 1, -1]
+    for it in range(250 * scale):
+        rank = rng.choice([1, 2, 2, 3])
+        shape = tuple(rng.choice([2, 3, 4, 6]) for _ in range(rank))
+        v = np.arange(int(np.prod(shape))).reshape(shape)
+        x = da.from_array(v, chunks=tuple(progs.rand_chunks_for(rng, s) for s in shape))
+        if it % 3 == 0:
+            # a real data-dependent selection: axis 0 gets nan chunks
+            base = x[x.reshape(shape[0], -1)[:, 0] % 2 == 0] if rank > 1 else x[x % 2 == 0]
+            expr = base.expr
+        else:
+            # the node compute_chunk_sizes builds, with an arbitrary pattern of still-unknown sizes
+            chunks = tuple(mask_layout(rng, d, rng.choice([0, 0.5, 1])) for d in x.chunks)
+            expr = ChunksOverride(x.expr, chunks)
+            got = tuple(tuple(d) for d in expr.chunks)
+            layer = expr._layer()
+            pairs, names_ok = [], True
+            for k, alias in layer.items():
+                tgt = alias.target
+                names_ok &= (k[0] == expr._name and tgt[0] == x.expr._name and alias.key == k)
+                pairs.append((tuple(k[1:]), tuple(tgt[1:])))
+            data = {"fn": "ChunksOverride", "chunks": repr(chunks), "impl_chunks": repr(got), "impl_layer": repr(pairs)}
+            chk.count("ChunksOverride:layer")
+            chk.case(("override", tuple(map(canon_dim, chunks))), nontrivial=len(pairs) > 1, sample=data)
+            if not names_ok or any(a != b for a, b in pairs):
+                chk.violation("ChunksOverride._layer is not the identity alias of every block of the wrapped array", data,
+                              signature={"class": "unknown-chunks", "fn": "ChunksOverride", "problem": "layer is not the identity alias"})
+            lay = clist(pairs, lambda p: ctuple(clist(p[0]), clist(p[1])))
+            pend.append((f"(COverride {cchunks(chunks)} {cchunks(got)} {lay})", "ChunksOverride.chunks/_layer", data, f"chunks_override_layer {cchunks(chunks)}"))
+            # _chunks_match against a perturbed copy
+            other = list(chunks)
+            r = rng.random()
+            ax = rng.randrange(rank)
+            if r < 0.3:
+                other[ax] = mask_layout(rng, x.chunks[ax], 0.5)
+            elif r < 0.4:
+                other[ax] = other[ax] + (1,)
+            elif r < 0.5:
+                other = other[:-1]
+            other = tuple(other)
+            mm = bool(_chunks_match(chunks, other))
+            chk.count("_chunks_match:" + str(mm))
+            chk.case(("match", tuple(map(canon_dim, chunks)), tuple(map(canon_dim, other))), nontrivial=chunks != other)
+            pend.append((f"(CMatch {cchunks(chunks)} {cchunks(other)} {'true' if mm else 'false'})", "_chunks_match",
+                         {"fn": "_chunks_match", "a": repr(chunks), "b": repr(other), "impl": mm}, f"chunks_match {cchunks(chunks)} {cchunks(other)}"))
+        chunks = tuple(tuple(d) for d in expr.chunks)
+        for _ in range(3):
+            index = tuple(rng.choice(elems) for _ in range(rng.choice([rank, rank, rank, max(rank - 1, 0), rank + 1])))
+            out = outcome(slice_slices_and_integers, expr, index)
+            g = cguard(out, lambda _v: "tt")
+            impl = out[1] if out[0] == "err" else "proceeds"
+            data = {"fn": "slice_slices_and_integers", "chunks": repr(chunks), "index": repr(index), "impl": impl}
+            chk.count("slice_guard:" + impl)
+            chk.case(("sg", tuple(map(canon_dim, chunks)), repr(index)), nontrivial=any(isnan(c) for d in chunks for c in d), sample=data)
+            if g is None:
+                chk.tie_break("correspondence:slice_slices_and_integers raised an unmodelled exception", data)
+                continue
+            if out[0] == "ok":
+                for d, ind in zip(chunks, index):
+                    if any(map(isnan, d)) and ind != slice(None):
+                        chk.violation("slice_slices_and_integers let a non-trivial index through on an axis whose length is unknown", data,
+                                      signature={"class": "unknown-chunks", "fn": "slice_slices_and_integers", "problem": "unknown axis indexed"})
+            pend.append((f"(CSlice {cchunks(chunks)} {clist(index, cploc)} {g})", "slice_slices_and_integers guard", data,
+                         f"slice_guard {cchunks(chunks)} {clist(index, cploc)}"))
+
+
+def fam_compute_chunk_sizes(chk, rng, scale, da, pend):
+    """compute_chunk_sizes() on real unknown-chunk arrays vs the model fed with the measured true block shapes"""
+    import dask.local
+    from c03 import flat_keys
+    for it in range(60 * scale):
+        rank = rng.choice([1, 1, 2, 2, 3])
+        shape = tuple(rng.choice([1, 2, 3, 4, 6, 9]) for _ in range(rank))
+        v = (np.arange(int(np.prod(shape)), dtype="int64").reshape(shape) * 5) % 13 - 4
+        chunks = tuple(progs.rand_chunks_for(rng, s) for s in shape)
+        x = da.from_array(v, chunks=chunks)
+        try:
+            with warnings.catch_warnings():
+                warnings.simplefilter("ignore")
+                how, y, _w = unknown_producers(rng, da, x, v)
+                nb = tuple(len(c) for c in y.chunks)
+                grid = list(itertools.product(*[range(n) for n in nb]))
+                keys = list(flat_keys(y.__dask_keys__()))
+                vals = dask.local.get_sync(y.__dask_graph__(), keys)
+                table = {idx: tuple(int(s) for s in np.asarray(b).shape) for idx, b in zip(grid, vals)}
+                adv = tuple(tuple(d) for d in y.chunks)
+                y.compute_chunk_sizes()
+                got = tuple(tuple(d) for d in y.chunks)
+        except Exception:  # noqa: BLE001
+            chk.count("compute_chunk_sizes:skipped-producer-raises")
+            continue
+        unknown = sum(1 for d in adv for c in d if isnan(c))
+        data = {"fn": "compute_chunk_sizes", "selection": how, "shape": shape, "chunks": chunks, "advertised": repr(adv),
+                "true_block_shapes": {str(k): s for k, s in list(table.items())[:8]}, "resolved": repr(got)}
+        chk.count("compute_chunk_sizes:" + how.split("(")[0].split("[")[0])
+        chk.case(("ccs", shape, chunks, how), nontrivial=unknown > 1, sample=data)
+        if any(isnan(c) for d in got for c in d) or any(len(s) != len(nb) for s in table.values()):
+            chk.violation("compute_chunk_sizes left unknown sizes (or a block has the wrong rank)", data,
+                          signature={"class": "unknown-chunks", "fn": "compute_chunk_sizes", "problem": "sizes left unknown"})
+            continue
+        bad = [idx for idx, s in table.items() if s != tuple(got[k][i] for k, i in enumerate(idx))]
+        if bad or not all(known_sound(a, g) for a, g in zip(adv, got)):
+            chk.violation("compute_chunk_sizes: a resolved chunk size is not the true size of that block (or contradicts a size that was already known)",
+                          {**data, "block": bad[:1], "true": [table[b] for b in bad[:1]]},
+                          signature={"class": "unknown-chunks", "fn": "compute_chunk_sizes", "problem": "resolved size differs from the executed block"})
+        tab = clist(sorted(table.items()), lambda kv: ctuple(clist(kv[0]), clist(kv[1])))
+        pend.append((f"(CCcs {clist(nb)} {tab} {clist(got, clist)})", "compute_chunk_sizes", data, None))
+
+
+def fam_unknown_model(chk):
+    import dask_array as da
+    rng = random.Random(chk.seed * 7919 + 28)     # own stream: the differential part above keeps its cases
+    scale = 10 if chk.tier == "thorough" else 1
+    pend = []                                      # (Coq case literal, kind, data, model expression)
+    fam_validate_rechunk(chk, rng, scale, pend)
+    fam_old_to_new(chk, rng, scale, pend)
+    fam_plan_early_exit(chk, rng, scale, pend)
+    fam_blockdims_unknown(chk, rng, scale, pend)
+    fam_slice_guard_override(chk, rng, scale, da, pend)
+    fam_compute_chunk_sizes(chk, rng, scale, da, pend)
+    mism, _ = coq_eval_cases(HEADER, "ucase", CASE_DEFS, [p[0] for p in pend], chunk=1700, jobs=6)
+    seen = {}
+    for i in mism:
+        _lit, kind, data, expr = pend[i]
+        seen[kind] = seen.get(kind, 0) + 1
+        if seen[kind] > 3:
+            continue
+        data = dict(data)
+        if expr is not None:
+            try:
+                data["model"] = coq_eval_expr(HEADER, [expr])[0]
+            except Exception as e:  # noqa: BLE001
+                data["model"] = f"<{e}>"
+        chk.tie_break("correspondence:" + kind, data)
+    chk.traces_validated += len(pend) - len(mism)
+
+
+def corpus_f32(chk, da):
+    """F32: an elementwise op of arrays with unknown chunk sizes whose blocks do not align broadcasts silently.
+    (a) two unknown-size operands, true block sizes (2,1) and (1,2): NumPy gives 3 elements, dask 4;
+    (b) an unknown-size operand (true sizes (1,2)) and a known (2,2) one: NumPy raises, dask returns 4 elements
+        (unify_chunks_expr skips "rechunking known chunks to unknown")."""
+    def case_a():
+        xv, yv = np.array([5, 6, 0, 7, 0, 0]), np.array([9, 0, 0, 9, 9, 0])
+        x, y = da.from_array(xv, chunks=3), da.from_array(yv, chunks=3)
+        return "x[x>4] + y[y>4], true block sizes (2,1) and (1,2)", (lambda: x[x > 4] + y[y > 4]), (lambda: xv[xv > 4] + yv[yv > 4])
+
+    def case_b():
+        xv, yv = np.arange(6), np.arange(4) * 10
+        x, y = da.from_array(xv, chunks=3), da.from_array(yv, chunks=2)
+        return ("x[(x==2)|(x>=4)] + y, true block sizes (1,2) against known (2,2)", (lambda: x[(x == 2) | (x >= 4)] + y),
+                (lambda: xv[(xv == 2) | (xv >= 4)] + yv))
+
+    for tag, mk in (("a", case_a), ("b", case_b)):
+        what, f_da, f_np = mk()
+        chk.count("corpus:elemwise-of-unknown:" + tag)
+        chk.case(("corpus", "F32", tag), nontrivial=True)
+        try:
+            want = f_np()
+        except Exception as e:  # noqa: BLE001
+            want = e
+        try:
+            with warnings.catch_warnings():
+                warnings.simplefilter("ignore")
+                got = np.asarray(f_da().compute(scheduler="sync"))
+        except Exception:  # noqa: BLE001
+            chk.count("follow-unknown:refused")
+            continue
+        if isinstance(want, Exception):
+            ok, why, wtxt = False, "NumPy raises " + type(want).__name__, "raises"
+        else:
+            ok, why = progs.values_equal(got, want)
+            wtxt = want.tolist()
+        if not ok:
+            chk.violation(f"{what}: returned {got.tolist()} instead of raising; NumPy: {wtxt} ({why})",
+                          {"case": what, "impl": got.tolist(), "numpy": wtxt},
+                          signature={"class": "unknown-chunks", "selection": "mask",
+                                     "problem": "elemwise of two unknown-size arrays: misaligned blocks broadcast silently"})
+        else:
+            chk.traces_validated += 1
+
+
 def run(chk: Check):
     import dask_array as da
     chk.rule = ("data-dependent selections (dask / NumPy boolean masks, nonzero, unique, argwhere, flatnonzero, compress) over generated "
                 "arrays: the unknown-size result must compute NumPy's values; compute_chunk_sizes() must set every chunk to the true "
                 "size of that block (checked block by block against the executed graph) and later operations must equal NumPy; a "
                 "follow-on operation applied while sizes are still unknown must either raise or equal NumPy (never a wrong shape or "
-                "value); non-trivial = more than one block with unknown size")
+                "value); non-trivial = more than one block with unknown size.  Model correspondence (fam_unknown_model): the real "
+                "_validate_rechunk, old_to_new (nan axes), plan_rechunk (early exit), common_blockdim / coarse_blockdim (lists with nan layouts), "
+                "the guard of slice_slices_and_integers, ChunksOverride.chunks/_layer, _chunks_match and compute_chunk_sizes (fed with the block "
+                "shapes measured by executing every block) are run on exhaustive small + generated inputs and their outcome (value / ValueError / "
+                "AssertionError / StopIteration) is compared exactly with the Gallina models of theories/UnknownChunks.v inside Coq; accepted "
+                "outcomes are also checked against known_sound w.r.t. the true sizes")
+    chk.assumptions = ["an unknown chunk size is always THE np.nan singleton (as the library writes it): tuple equality / set membership of layouts "
+                       "with nan is identity based, so two layouts with nans in the same places are one set member; the model uses None structurally",
+                       "chunk sizes are below 2**53 (np.array_equal in _validate_rechunk compares them as float64)",
+                       "common_blockdim / coarse_blockdim are called with lists (deterministic iteration order); real callers pass sets, the theorems "
+                       "hold for every order; the min(..., key=len) tie-break of coarse_blockdim is an oracle argument of the model",
+                       "old_to_new is modelled on the domain _validate_rechunk establishes (equal rank; a fully known old axis faces a fully known new axis)",
+                       "compute_chunk_sizes is modelled for arrays with at least one block on every axis (a zero-block axis makes chunk_shapes[0] raise IndexError)"]
     chk.run_proofs()
+    corpus_f32(chk, da)
     rng = chk.rng
     n = 5000 if chk.tier == "thorough" else 300
     for it in range(n):
@@ -160,6 +651,8 @@ def run(chk: Check):
         if problems:
             chk.violation("; ".join(problems[:3]), desc, signature={"class": "unknown-chunks", "selection": how.split("(")[0].split("[")[0],
                                                                    "problem": re.sub(r"[0-9(),\[\]'-]+", "#", problems[0])[:40]})
+
+    fam_unknown_model(chk)
 
 
 def replay(path):
